@@ -17,7 +17,7 @@ CHECKS = {
    "Every product state (exact internal representative x abstract group element) reachable by programs of bounded length over every public operator form is checked for decode(encode(E)) == E, encode(decode(b)) == b and for the encoding<->class bijection; every accepted string of the C02 byte domain is re-encoded and compared bit for bit. Exhaustive inside the stated bounds, both builds.",
    "Reference model (BigUint, ported from ristretto.sage, bound to the sage vectors at every start); hook H1 to snapshot/rebuild representatives; bounded depth and finite alphabets (DESIGN 2, 3/C01)."),
  "C02": ("exploration", E3,
-   "All seven decoding entry points on a deviation-bounded byte-string domain (every valid encoding found by the explorer x every near-miss transformer, complete small intervals, boundary values, every slice length 0..=80) compared with decodeSpec: verdict, error kind, element. Exhaustive over the listed domain, both builds.",
+   "All seven decoding entry points on a deviation-bounded byte-string domain (every valid encoding found by the explorer x every near-miss transformer, complete small intervals, boundary values, every slice length 0..=80, encodings solved for so that the decoder's intermediates fall in comparison/negation/xor boundary classes, aliases s+kq whose word differences cancel under xor) compared with decodeSpec: verdict, error kind, element. Exhaustive over the listed domain, both builds.",
    "decodeSpec port is the oracle; domain is structured, not all 2^256 strings (DESIGN 3/C02)."),
  "C03": ("model_checking", E1,
    "On every reachable product state every encode exit (compress, compress_to_field, From impls, CanonicalSerialize of Element and AffinePoint, Debug/Display hex) must equal encodeSpec of the model class; injectivity across classes over the whole explored set.",
@@ -29,19 +29,19 @@ CHECKS = {
    "Scalar-multiplication transitions of the explorer (all Mul/MulAssign forms, mul_bigint, both minimal ladders) with boundary scalars, r*P = identity on every reachable state, plus a flat grid of ~750 structured scalars (powers of two, all-ones limbs, longer than the modulus) x 16 representatives x every form, and all MSM vectors of length 0..3.",
    "Reference scalar multiplication is naive double-and-add; scalars are a structured finite set (DESIGN 3/C05)."),
  "C06": ("model_checking", E1 + " + scripted-RNG environment enumeration",
-   "Conversion transitions (into_affine, From, normalize_batch, batch_convert_to_mul_base ...) checked for conformance and validity on every reachable state; from_random_bytes / deserialisers on structured byte strings; samplers under every scripted RNG answer sequence up to a bound; validity decided in reference arithmetic (on curve, in 2E) and through the real API.",
+   "Conversion transitions (into_affine, From, normalize_batch, batch_convert_to_mul_base ...) checked for conformance and validity on every reachable state; from_random_bytes / deserialisers on structured byte strings; samplers under every scripted RNG answer sequence up to a bound and under counter generators placed at 2^32 boundaries; validity decided in reference arithmetic (on curve, in 2E) and through the real API.",
    "RNG scripts over a finite limb alphabet with an explicit horizon (DESIGN 3/C06)."),
  "C07": ("exploration", E3,
-   "encode_to_curve on complete small intervals, their negatives, roots of unity, boundary and limb-pattern values compared with elligatorSpec (class + encoding), sign symmetry, validity; hash_to_curve on a full 2-D grid against the reference sum. Every control class (r0 = 0, square / non-square branch, sign flip) must be hit.",
+   "encode_to_curve on complete small intervals, their negatives, roots of unity, boundary and limb-pattern values, and r0 solved for so that den / num / the square-root argument fall in boundary classes, compared with elligatorSpec (class + encoding), sign symmetry, validity; hash_to_curve on a full 2-D grid against the reference sum. Every control class (r0 = 0, square / non-square branch, sign flip) must be hit.",
    "elligatorSpec port; singular loci analysed in the reference at every run (DESIGN 3/C07)."),
  "C08": ("model_checking", E1,
-   "Every reachable representative is compared with the stored representatives of its own class and with all pool operands: == both ways, Hash under two hashers, encodings; every identity predicate on every state of the identity class and of every other class.",
+   "Every reachable representative is compared with the stored representatives of its own class and with all pool operands: == both ways, Hash under two hashers, encodings; every identity predicate on every state of the identity class and of every other class; the same predicates on both coset members of points solved for from boundary-class coordinates.",
    "Pairs are (state x first 6 representatives of its class x 8 pool operands), not all pairs of all states (DESIGN 3/C08)."),
  "C09": ("exploration", E3,
    "sqrt_ratio_zeta (table-driven) and the minimal Tonelli-Shanks variant on ratios whose 2-primary discrete log takes every value of every 8-bit table digit (<= 2 non-zero digits), all 2^k roots of unity, zeta^k, zero operands; expected flag known by construction; y checked in reference arithmetic; Field::sqrt and legendre against Euler.",
    "Inputs are built by reference arithmetic from the digit abstraction (DESIGN 3/C09)."),
  "C10": ("model_checking", E3 + " + explicit-state accumulator chains",
-   "Every operator/method form of Fq, Fr, Fp on both backends over structured operand grids (limb patterns, values around p, Montgomery constants) against BigUint arithmetic, plus accumulator chains of bounded depth that reach unstructured intermediate values.",
+   "Every operator/method form of Fq, Fr, Fp on both backends over structured operand grids (limb patterns, values around p, Montgomery constants, Montgomery-domain limb patterns, comparison/borrow boundary classes, operands with long divstep trajectories) against BigUint arithmetic, plus accumulator chains of bounded depth that reach unstructured intermediate values.",
    "BigUint mod-p arithmetic; operand sets are structured, not all of [0,p) (DESIGN 3/C10)."),
  "C11": ("exploration", E3,
    "Byte strings of every length 0..=200 x content patterns, all 32/48-byte values around p / 2^k, every flag value for the standard flag types, all conversions and round trips on the C10 operand sets, Ord and Hash on pairs; oracle = the integer the bytes denote.",
@@ -59,10 +59,10 @@ CHECKS = {
    "Constraint-matrix digests of every gadget and the seven pinned circuits across inputs and Setup/Prove mode; public-input shape; Groth16 prove/verify with the pinned keys on structured witnesses, cross-rejection on other public inputs.",
    "Groth16 soundness assumed; keys read from /repo/tests/test_vectors (DESIGN 3/C15)."),
  "C16": ("exploration", E3,
-   "decaf377::Bls12_377 vs ark_bls12_377::Bls12_377: generators, scalar multiples, (de)serialisation both ways, pairings on a scalar grid, bilinearity, Frobenius maps of the whole tower against x^(p^i).",
+   "decaf377::Bls12_377 vs ark_bls12_377::Bls12_377: generators, scalar multiples, (de)serialisation both ways (honest encodings, non-canonical coefficient slots, and curve points solved for so that y sits in the boundary classes of the sign-flag comparison), pairings on a scalar grid, bilinearity, Frobenius maps of the whole tower against x^(p^i).",
    "ark-bls12-377 is the reference engine (DESIGN 3/C16)."),
  "C17": ("exploration", "complete enumeration of the finite list of public constants against recomputation from the moduli",
-   "Every public constant of the three fields, the curve and the pairing engine, in both builds, recomputed from the modulus alone (or checked against its defining property using certified factorisations of p-1).",
+   "Every public constant of the three fields, the curve and the pairing engine, in both builds, recomputed from the modulus alone (or checked against its defining property using certified factorisations of p-1), and checked to be stored in canonical representation.",
    "Factorisations re-verified at every run (Miller-Rabin + product) (DESIGN 3/C17)."),
 }
 
